@@ -123,6 +123,18 @@ func exactFit(c *Ctx, scope map[string]bool, floor int) {
 					}
 					ef := ctx.Lin(e)
 					if !(ctx.Prove(lin.GE(ef, hi)) && ctx.Prove(lin.LE(ef, hi))) {
+						// a guard on the START of this read: a field of variable width may be empty, and an
+						// empty field may sit exactly at the end of the input (lo == hi == len)
+						if sl.Low != nil {
+							lo := ctx.Lin(sl.Low)
+							if ctx.Prove(lin.GE(ef, lo)) && ctx.Prove(lin.LE(ef, lo)) && !ctx.Prove(lin.GE(hi, lo.AddK(1))) && !indexedAt(ctx, fn, sl.X, lo) {
+								atEqual := op == token.LEQ || op == token.GEQ || op == token.EQL
+								taken := d.Succs[0] == y
+								if atEqual != taken {
+									bad = append(bad, fmt.Sprintf("the guard at %s (%s against len) on the START of this read is %v on this path, which excludes an empty field at the very end of the input (lo == hi == len(input))", p.Rel(iff.Cond.Pos()), bo.Op, taken))
+								}
+							}
+						}
 						continue // a guard on another quantity (a header, a start offset)
 					}
 					guards++
@@ -194,6 +206,24 @@ func byteAtRead(ctx *prove.Ctx, fn *ssa.Function, sl *ssa.Slice) bool {
 			}
 			f := ctx.Lin(ia.Index)
 			if ctx.Prove(lin.GE(f, hi)) && ctx.Prove(lin.LE(f, hi)) {
+				return true
+			}
+		}
+	}
+	return false
+}
+
+// indexedAt: the function reads x[i] for an index provably equal to f (the
+// byte at the start of the read is needed anyway, so lo < len is implied).
+func indexedAt(ctx *prove.Ctx, fn *ssa.Function, x ssa.Value, f lin.Form) bool {
+	for _, b := range fn.Blocks {
+		for _, in := range b.Instrs {
+			ia, ok := in.(*ssa.IndexAddr)
+			if !ok || ia.X != x {
+				continue
+			}
+			g := ctx.Lin(ia.Index)
+			if ctx.Prove(lin.GE(g, f)) && ctx.Prove(lin.LE(g, f)) {
 				return true
 			}
 		}
